@@ -535,7 +535,12 @@ def gen_portfolio(ch, feats):
                                min_cap=r(0.0, g), max_cap=r(80.0, g)))
             assets.append(gen_plant(ch, g, "chp", ["n1", "nh", "nf"], feats, kind="CHPAsset"))
     mode = ch.pick("mode", feats.get("modes", ["mono"]))
-    return finish(gj, assets, prices, mode=mode)
+    scn = finish(gj, assets, prices, mode=mode)
+    if g.tz and any(a["type"] == "OrderBook" for a in assets):
+        # an order book compares its order dates with the grid directly (it does not localise naive dates):
+        # on a zone-aware grid the dates are given zone-aware, as a user has to
+        scn["date_tz"] = g.tz
+    return scn
 
 
 # ----------------------------------------------------------------------------- tags
